@@ -641,6 +641,8 @@ def run(chk: Check) -> None:
     d15_options_survive_recursion(chk)
     d16_no_equality_shortcut(chk)
     d17_every_match_is_changed(chk)
+    d18_inferred_format_is_used_as_inferred(chk)
+    d19_no_local_time_conversions(chk)
     d7c_presentation_set_in_one_place(chk)
     from rules.shared import shared_state_rule
     shared_state_rule(chk, "C03-D11", ("yamlpath/processor.py",
@@ -815,6 +817,75 @@ def d7c_presentation_set_in_one_place(chk: Check) -> None:
                 chk.ok("C03-D7c", fi, fi.node, fi.short, "no such store",
                        False)
     if n < 40:
+        raise AnalysisError("functions examined: {}".format(n))
+
+
+def d18_inferred_format_is_used_as_inferred(chk: Check) -> None:
+    """With the DEFAULT format make_new_node infers the presentation from
+    the new value itself (`YAMLValueFormats.from_node`) and hands that on.
+    Overriding the inference for a class of values -- "multi-line text
+    reads better as a literal block" -- picks a presentation the value may
+    not survive: a first line that starts with a blank, a CR, trailing
+    blanks are written with a wrong indentation indicator, and the edited
+    document no longer reloads to the data that was set."""
+    prog = chk.prog
+    chk.rule("C03-D18", "the format inferred by from_node() in make_new_node "
+             "is bound once and not re-assigned before it is used",
+             floor=1)
+    fi = prog.func("Nodes.make_new_node")
+    defs = [a for a in walk_local(fi.node) if isinstance(a, ast.Assign) and
+            isinstance(a.value, ast.Call) and
+            src(a.value.func).endswith("from_node")]
+    if len(defs) != 1:
+        raise AnalysisError("format inference of make_new_node not found")
+    name = src(defs[0].targets[0])
+    others = [x for x in walk_local(fi.node) if isinstance(x, ast.Name) and
+              x.id == name and isinstance(x.ctx, ast.Store) and
+              x is not defs[0].targets[0]]
+    if others:
+        chk.fail("C03-D18", fi, others[0], "`{}` re-assigned".format(name),
+                 "the inferred format is replaced for some values: the "
+                 "presentation chosen (a block scalar for any multi-line "
+                 "text, say) cannot carry every such value, so the written "
+                 "document reloads to other text or not at all")
+    else:
+        chk.ok("C03-D18", fi, defs[0], src(defs[0]), "used as inferred")
+
+
+def d19_no_local_time_conversions(chk: Check) -> None:
+    """`datetime.astimezone()` on a *naive* value assumes the host's local
+    time zone.  A timestamp given as text without an offset would be
+    shifted by whatever offset the machine running yamlpath has (none on a
+    UTC build host, which is why no test notices).  The node builders do
+    not convert between zones at all."""
+    prog = chk.prog
+    chk.rule("C03-D19", "no astimezone() / localtime-dependent conversion "
+             "in the node builders of nodes.py unless the value is known "
+             "to carry a tzinfo", floor=10)
+    n = 0
+    for fi in prog.funcs_in("yamlpath/common/nodes.py"):
+        n += 1
+        bad = []
+        for c in walk_local(fi.node):
+            if isinstance(c, ast.Call) and isinstance(c.func, ast.Attribute) \
+                    and c.func.attr in ("astimezone", "fromtimestamp",
+                                        "timestamp", "localtime", "mktime"):
+                recv = src(c.func.value)
+                aware = any(f.kind == "cond" and f.pol and
+                            "tzinfo" in src(f.expr) and
+                            "is not None" in src(f.expr)
+                            for f in facts_at(c))
+                if not aware:
+                    bad.append(c)
+        if bad:
+            chk.fail("C03-D19", fi, bad[0], "{}: `{}`".format(
+                fi.short, src(bad[0])[:50]),
+                "a naive datetime is interpreted in the host's local zone: "
+                "the stored value differs from the one that was set by the "
+                "machine's UTC offset")
+        else:
+            chk.ok("C03-D19", fi, fi.node, fi.short, "none", False)
+    if n < 10:
         raise AnalysisError("functions examined: {}".format(n))
 
 
